@@ -162,4 +162,11 @@ var prop = &ev.Prop[Case]{Sub: "framing", Quick: 24000, Thorough: 1200000,
 
 func TestRegress(t *testing.T) { prop.Regress(t) }
 func TestReplay(t *testing.T)  { prop.Replay(t) }
-func TestProp(t *testing.T)    { prop.Run(t) }
+func TestProp(t *testing.T) {
+	for _, n := range lib.Names() {
+		ev.R().Floor("accepted:"+n, 10)
+	}
+	ev.R().Floor("complete", 1000)
+	ev.R().Floor("model-extent-compared", 1000)
+	prop.Run(t)
+}
